@@ -4,8 +4,8 @@ import (
 	"fmt"
 	"strings"
 
-	"github.com/rigochain/rigo-go/types/crypto"
 	rtypes "github.com/rigochain/rigo-go/types"
+	"github.com/rigochain/rigo-go/types/crypto"
 	"verifharness/internal/appdrv"
 )
 
@@ -20,7 +20,7 @@ func addrOfPub(pub []byte) rtypes.Address {
 // a parameter change is the ONLY thing that happens (state derived from parameters must follow it).
 func (s *Sim) Quiet(h int64) bool {
 	for _, p := range s.Props {
-		if h >= p.Applying && h <= p.Applying+2 && (p.Applying+int64(len(p.Hash)))%2 == int64(p.Hash[0])%2 {
+		if h >= p.Applying && h <= p.Applying+2 && (s.QuietAll || (p.Applying+int64(len(p.Hash)))%2 == int64(p.Hash[0])%2) {
 			return true
 		}
 	}
